@@ -47,11 +47,40 @@ func exec(c vh.ShimCase) (vh.Outcome, error) {
 	return out, err
 }
 
-const rule = "histories of 1..30 shim operations (add key / certificate+key / hardware certificate incl. plain keys, certificates over absent keys, over keys present only as a certificate, the same twice; list, signers, sign with flags, sign through a Signers() signer, remove, remove-all, out-of-band edits of the keyring, raw Forward bodies of 0..64 KiB with interpreted and unknown codes, extension) over 0..6 initial identities of RSA / ECDSA / Ed25519 keys, both upstream modes, with fault plans installed at any point (failure reply, malformed reply, empty reply, declared length > 16 MiB, truncated reply, connection closed; by request index or request kind) and faults or a dead address during construction. Oracle: reference model of the in-memory table over the directly observed keyring: acceptance iff certificate over a listed plain key; listings = keyring identities (blob-identical, not hidden) + in-memory as multisets with expected comments; signatures verify under the identity's key; raw requests and replies byte-identical at the proxy; a fault yields an error, never a crash, and still-valid in-memory certificates are listed afterwards; New fails when construction fails. Non-trivial: an acceptance decision was taken or a fault was reached."
+const rule = "histories of 1..30 shim operations (add key / certificate+key / hardware certificate incl. plain keys, certificates over absent keys, over keys present only as a certificate, the same twice, several certificates over one key offered while the key is held and after it left; list, signers, sign with flags, sign through a Signers() signer, remove, remove-all, out-of-band edits of the keyring, raw Forward bodies of 0..64 KiB with interpreted and unknown codes, extension) over 0..6 initial identities of RSA / ECDSA / Ed25519 keys, both upstream modes, with fault plans installed at any point (failure reply, malformed reply, empty reply, declared length > 16 MiB, truncated reply, connection closed; by request index or request kind) and faults or a dead address during construction. Oracle: reference model of the in-memory table over the directly observed keyring: acceptance iff certificate over a listed plain key; listings = keyring identities (blob-identical, not hidden) + in-memory as multisets with expected comments; signatures verify under the identity's key; raw requests and replies byte-identical at the proxy; a fault yields an error, never a crash, and still-valid in-memory certificates are listed afterwards; New fails when construction fails. Non-trivial: an acceptance decision was taken or a fault was reached."
+
+// genWithSlotEpisode: a third of the histories contain an episode about ONE key that carries several
+// certificates (a slot with a touch and a touchless certificate): the first is registered while the
+// key is held, the key then leaves the underlying agent (through the shim or behind its back), and
+// another certificate over the same key is offered - with or without a listing in between.
+func genWithSlotEpisode(t *rapid.T) vh.ShimCase {
+	c := vh.GenShimCase(t, profile)
+	if rapid.IntRange(0, 2).Draw(t, "slotEpisode") != 0 || c.BadAddress || len(c.ConstructPlan) > 0 {
+		return c
+	}
+	key := rapid.SampledFrom([]string{"p384a", "ed25519c", "rsa1536", "dsa1024"}).Draw(t, "slotKey")
+	base := len(c.Certs)
+	for i, class := range []string{"ysshca0", "ysshca1", "text"} {
+		c.Certs = append(c.Certs, vh.CertDef{Key: key, KeyIDClass: class, Validity: "current", Serial: uint64(3000 + i)})
+	}
+	ep := []vh.Op{{Kind: "plan", Cert: -1}, {Kind: "addkey", Key: key, Cert: -1}, {Kind: "addhard", Cert: base, Comment: "touch"}}
+	if rapid.Bool().Draw(t, "slotSecondWhileHeld") {
+		ep = append(ep, vh.Op{Kind: "addhard", Cert: base + 1, Comment: "touchless"})
+	}
+	ep = append(ep, vh.Op{Kind: rapid.SampledFrom([]string{"oobremove", "oobremove", "remove", "oobremoveall"}).Draw(t, "slotKeyLeaves"), Key: key, Cert: -1})
+	if rapid.IntRange(0, 2).Draw(t, "slotListBetween") == 0 {
+		ep = append(ep, vh.Op{Kind: "list", Cert: -1})
+	}
+	ep = append(ep, vh.Op{Kind: "addhard", Cert: base + 2, Comment: "other"}, vh.Op{Kind: "list", Cert: -1}, vh.Op{Kind: "sign", Cert: base + 2, Data: []byte("slot")})
+	at := rapid.IntRange(0, len(c.Ops)).Draw(t, "slotAt")
+	ops := append(append(append([]vh.Op{}, c.Ops[:at]...), ep...), c.Ops[at:]...)
+	c.Ops = ops
+	return c
+}
 
 func TestC10Shim(t *testing.T) {
 	vh.Run(t, vh.Spec[vh.ShimCase]{Property: "C10", Name: "TestC10Shim", Rule: rule,
-		Gen: func(t *rapid.T) vh.ShimCase { return vh.GenShimCase(t, profile) }, Exec: exec})
+		Gen: genWithSlotEpisode, Exec: exec})
 }
 
 // TestC10ConstructFaults enumerates every fault kind at the first request of construction in both modes.
